@@ -157,6 +157,18 @@ func genC15(d *RunDesc, tier string) {
 	if wl.chance(1, 2) {
 		length = wl.between(5, 40)
 	}
+	if wl.chance(1, 8) {
+		// a "wide" history: many distinct inputs of one or two kinds in one process,
+		// so that a bounded cache (eviction, resize, generation counters) is driven
+		// past its capacity; siblings of earlier inputs keep recurring
+		length = wl.between(maxLen/2, maxLen)
+		kinds := []int{wl.intn(NKinds), wl.intn(NKinds)}
+		for i := wl.between(40, maxLen/2); i > 0; i-- {
+			k := pick(wl, kinds)
+			v, _ := genValidVector(wl, k)
+			pool = append(pool, poolInput{k, false, v, 0})
+		}
+	}
 	var ops []Op
 	slot := 1
 	var live []int // object slots
